@@ -286,4 +286,186 @@ def validateNodeDecision (props : List SProp) (vS : Nat → Option String) (vV :
   let p := spropAt props i
   validateDecision p.cfgType p.validate (p.isPtr && p.isNil) p.isStruct p.canIface (vS i) (fun ts => vV i (",".intercalate ts))
 
+/-! ### util/el ReplaceAllContent: the bounded replacement loop, for ANY callback (which may change the world) -/
+
+/-- the string operations the loop uses, over any type of strings `S`:
+    `find s` = FindString (the EMPTY string when nothing matches), `content elr` = the match without its delimiters,
+    `replace1 s old new` = strings.Replace(s, old, new, 1) -/
+structure ElOps (S : Type) where
+  find : S → S
+  isEmpty : S → Bool
+  content : S → S
+  replace1 : S → S → S → S
+
+/-- el.go:42-61 as a function: `fuel` rounds at most are interpreted (`none` beyond), `round` counts replacements,
+    `bound` = maxReplaceRounds -/
+def elLoop {S σ ε : Type} (ops : ElOps S) (cb : S → σ → Except ε S × σ) (boundErr : ε) (bound : Nat) :
+    Nat → Nat → S → σ → Option (Except ε S × σ)
+  | 0, _, _, _ => none
+  | fuel + 1, round, s, w =>
+    if ops.isEmpty (ops.find s) then some (.ok s, w)
+    else if round ≥ bound then some (.error boundErr, w)
+    else match cb (ops.content (ops.find s)) w with
+      | (.error e, w') => some (.error e, w')
+      | (.ok r, w') => elLoop ops cb boundErr bound fuel (round + 1) (ops.replace1 s (ops.find s) r) w'
+
+def encStrRes : Except String String → Val
+  | .ok r => .tuple [.str r, .nil]
+  | .error e => .tuple [.str "", .str e]
+
+/-- the callback is `.ref 0 40`; calling it is the primitive `.call` -/
+def elFn {σ : Type} (ops : ElOps String) (cb : String → σ → Except String String × σ) (bound : Nat) :
+    String → List Val → σ → Option (Val × σ)
+  | "self.FindString", [.str s], w => some (.str (ops.find s), w)
+  | "self.content", [.str s], w => some (.str (ops.content s), w)
+  | ".call", [.ref 0 40, .str c], w => some (encStrRes (cb c w).1, (cb c w).2)
+  | "strings.Replace", [.str s, .str old, .str new, .int 1], w => some (.str (ops.replace1 s old new), w)
+  | "$maxReplaceRounds", [], w => some (.int bound, w)
+  | "fmt.Errorf", _, w => some (.str "unresolved", w)
+  | _, _, _ => none
+
+def elPrims {σ : Type} (ops : ElOps String) (cb : String → σ → Except String String × σ) (bound fuel : Nat) : Prims σ :=
+  { fn := elFn ops cb bound, fuel := fuel }
+
+/-! ### the quote stage: PostProcessProperties with its callback -/
+
+/-- the loop over a function literal (what the primitive `self.el.ReplaceAllContent` does with the literal it is given) -/
+def elLoopK {σ : Type} (ops : ElOps String) (k : Handler σ) (bound : Nat) : Nat → Nat → String → σ → Option (Val × σ)
+  | 0, _, _, _ => none
+  | fuel + 1, round, s, w =>
+    if ops.find s == "" then some (.tuple [.str s, .nil], w)
+    else if round ≥ bound then some (.tuple [.str "", .str "unresolved"], w)
+    else match k [.str (ops.content (ops.find s))] w with
+      | some (.tuple [.str r, .nil], w') => elLoopK ops k bound fuel (round + 1) (ops.replace1 s (ops.find s) r) w'
+      | some (.tuple [.str _, .str e], w') => some (.tuple [.str "", .str e], w')
+      | _ => none
+
+inductive QKind | scalar | map | list
+deriving DecidableEq, Repr
+
+def QKind.code : QKind → Nat
+  | .scalar => 30
+  | .map => 31
+  | .list => 32
+
+/-- a configured value: identity and kind -/
+abbrev QV := Nat × QKind
+
+def encQV : Option QV → Val
+  | none => .nil
+  | some (a, k) => .ref a k.code
+
+/-- config_quote_aware_post_processors.go:56-62: nil, an empty map and an empty list count as absent -/
+def quoteAbsent (lenOf : Nat → Nat) : Option QV → Bool
+  | none => true
+  | some (a, .map) => lenOf a == 0
+  | some (a, .list) => lenOf a == 0
+  | some (_, .scalar) => false
+
+/-- lines 50-92 as a decision: which value is recorded and formatted — the configured one, the parsed default, or nothing;
+    a default that does not parse is an error BEFORE anything is recorded -/
+def quoteDecision {ε α : Type} (absent : Bool) (configured : α) (dflt : Option String) (parse : String → Except ε α) :
+    Except ε (Option α) :=
+  if absent then
+    match dflt with
+    | none => .ok none
+    | some d => if d == "" then .ok none else (parse d).map some
+  else .ok (some configured)
+
+/-- the callback on node i: `splitN` = strings.SplitN(exp, ":", 2), `cfg` = Configure.Get, `parse` = strconv2.ParseAny,
+    `fmtAny` = strconv2.FormatAny -/
+def quoteCb (splitN : String → String × Option String) (cfg : String → Option QV) (lenOf : Nat → Nat)
+    (parse : String → Except String Nat) (fmtAny : Nat → Except String String) (i : Nat) (exp : String) (w : SW) :
+    Except String String × SW :=
+  let key := (splitN exp).1
+  match quoteDecision (quoteAbsent lenOf (cfg key)) ((cfg key).map (·.1) |>.getD 0) (splitN exp).2 parse with
+  | .error e => (.error e, w)
+  | .ok none => (.ok "", w ++ [.setCfg i key none])
+  | .ok (some a) => (fmtAny a, w ++ [.setCfg i key (some a)])
+
+def quoteFn (props : List SProp) (ops : ElOps String) (splitN : String → String × Option String) (cfg : String → Option QV)
+    (lenOf : Nat → Nat) (parse : String → Except String Nat) (fmtAny : Nat → Except String String) :
+    String → List Val → SW → Option (Val × SW)
+  | "self.el.MatchString", [.str s], w => some (.bool (!(ops.find s == "")), w)
+  | ".TagStr", [.ref i 20], w => some (.str (spropAt props i).tagStr, w)
+  | "strings.SplitN", [.str e, .str ":", .int 2], w =>
+      some (match (splitN e).2 with
+            | none => .list [.str (splitN e).1]
+            | some d => .list [.str (splitN e).1, .str d], w)
+  | "self.Configure.Get", [.str k], w => some (encQV (cfg k), w)
+  | "assert2:map[string]any", [.ref a 31], w => some (.tuple [.list (List.replicate (lenOf a) .nil), .bool true], w)
+  | "assert2:map[string]any", [.ref _ _], w => some (.tuple [.nil, .bool false], w)
+  | "assert2:[]any", [.ref a 32], w => some (.tuple [.list (List.replicate (lenOf a) .nil), .bool true], w)
+  | "assert2:[]any", [.ref _ _], w => some (.tuple [.nil, .bool false], w)
+  | "strconv2.ParseAny", [.str s], w => some (encParse (parse s), w)
+  | "strconv2.FormatAny", [.ref a _], w => some (encStrRes (fmtAny a), w)
+  | ".SetConfiguration", [.ref i 20, .str k, .nil], w => some (.tuple [], w ++ [.setCfg i k none])
+  | ".SetConfiguration", [.ref i 20, .str k, .ref a _], w => some (.tuple [], w ++ [.setCfg i k (some a)])
+  | ".set:TagVal", [.ref i 20, .str s], w => some (.tuple [], w ++ [.setTagVal i s])
+  | "errors.Wrapf", e :: _, w => some (e, w)
+  | "errors.WithMessagef", e :: _, w => some (e, w)
+  | _, _, _ => none
+
+section qeqs
+variable (props : List SProp) (ops : ElOps String) (splitN : String → String × Option String) (cfg : String → Option QV)
+  (lenOf : Nat → Nat) (parse : String → Except String Nat) (fmtAny : Nat → Except String String)
+theorem quoteFn_Match (s : String) (w : SW) : quoteFn props ops splitN cfg lenOf parse fmtAny "self.el.MatchString" [.str s] w =
+    some (.bool (!(ops.find s == "")), w) := rfl
+theorem quoteFn_TagStr (i : Nat) (w : SW) : quoteFn props ops splitN cfg lenOf parse fmtAny ".TagStr" [.ref i 20] w =
+    some (.str (spropAt props i).tagStr, w) := rfl
+theorem quoteFn_SplitN (e : String) (w : SW) : quoteFn props ops splitN cfg lenOf parse fmtAny "strings.SplitN" [.str e, .str ":", .int 2] w =
+    some (match (splitN e).2 with
+          | none => .list [.str (splitN e).1]
+          | some d => .list [.str (splitN e).1, .str d], w) := rfl
+theorem quoteFn_Get (k : String) (w : SW) : quoteFn props ops splitN cfg lenOf parse fmtAny "self.Configure.Get" [.str k] w =
+    some (encQV (cfg k), w) := rfl
+theorem quoteFn_assertMap31 (a : Nat) (w : SW) : quoteFn props ops splitN cfg lenOf parse fmtAny "assert2:map[string]any" [.ref a 31] w =
+    some (.tuple [.list (List.replicate (lenOf a) .nil), .bool true], w) := rfl
+theorem quoteFn_assertMap30 (a : Nat) (w : SW) : quoteFn props ops splitN cfg lenOf parse fmtAny "assert2:map[string]any" [.ref a 30] w =
+    some (.tuple [.nil, .bool false], w) := rfl
+theorem quoteFn_assertMap32 (a : Nat) (w : SW) : quoteFn props ops splitN cfg lenOf parse fmtAny "assert2:map[string]any" [.ref a 32] w =
+    some (.tuple [.nil, .bool false], w) := rfl
+theorem quoteFn_assertList30 (a : Nat) (w : SW) : quoteFn props ops splitN cfg lenOf parse fmtAny "assert2:[]any" [.ref a 30] w =
+    some (.tuple [.nil, .bool false], w) := rfl
+theorem quoteFn_assertList31 (a : Nat) (w : SW) : quoteFn props ops splitN cfg lenOf parse fmtAny "assert2:[]any" [.ref a 31] w =
+    some (.tuple [.nil, .bool false], w) := rfl
+theorem quoteFn_assertList32 (a : Nat) (w : SW) : quoteFn props ops splitN cfg lenOf parse fmtAny "assert2:[]any" [.ref a 32] w =
+    some (.tuple [.list (List.replicate (lenOf a) .nil), .bool true], w) := rfl
+theorem quoteFn_ParseAny (s : String) (w : SW) : quoteFn props ops splitN cfg lenOf parse fmtAny "strconv2.ParseAny" [.str s] w =
+    some (encParse (parse s), w) := rfl
+theorem quoteFn_FormatAny (a k : Nat) (w : SW) : quoteFn props ops splitN cfg lenOf parse fmtAny "strconv2.FormatAny" [.ref a k] w =
+    some (encStrRes (fmtAny a), w) := rfl
+theorem quoteFn_SetCfgNil (i : Nat) (k : String) (w : SW) :
+    quoteFn props ops splitN cfg lenOf parse fmtAny ".SetConfiguration" [.ref i 20, .str k, .nil] w = some (.tuple [], w ++ [.setCfg i k none]) := rfl
+theorem quoteFn_SetCfg (i a kk : Nat) (k : String) (w : SW) :
+    quoteFn props ops splitN cfg lenOf parse fmtAny ".SetConfiguration" [.ref i 20, .str k, .ref a kk] w =
+      some (.tuple [], w ++ [.setCfg i k (some a)]) := rfl
+theorem quoteFn_setTagVal (i : Nat) (s : String) (w : SW) :
+    quoteFn props ops splitN cfg lenOf parse fmtAny ".set:TagVal" [.ref i 20, .str s] w = some (.tuple [], w ++ [.setTagVal i s]) := rfl
+theorem quoteFn_Wrapf (e : Val) (args : List Val) (w : SW) :
+    quoteFn props ops splitN cfg lenOf parse fmtAny "errors.Wrapf" (e :: args) w = some (e, w) := rfl
+theorem quoteFn_WithMessagef (e : Val) (args : List Val) (w : SW) :
+    quoteFn props ops splitN cfg lenOf parse fmtAny "errors.WithMessagef" (e :: args) w = some (e, w) := rfl
+end qeqs
+
+def quotePrims (props : List SProp) (ops : ElOps String) (splitN : String → String × Option String) (cfg : String → Option QV)
+    (lenOf : Nat → Nat) (parse : String → Except String Nat) (fmtAny : Nat → Except String String) (bound fuel : Nat) : Prims SW :=
+  { fn := quoteFn props ops splitN cfg lenOf parse fmtAny
+    hfn := fun f args k w =>
+      match f, args with
+      | "self.el.ReplaceAllContent", [.str s] => elLoopK ops k bound fuel 0 s w
+      | _, _ => none }
+
+/-- the quote stage on node i: untouched without a match; else the loop over the tag text AS WRITTEN, and the result is
+    stored into TagVal only when every replacement succeeded -/
+def quoteNode (props : List SProp) (ops : ElOps String) (splitN : String → String × Option String) (cfg : String → Option QV)
+    (lenOf : Nat → Nat) (parse : String → Except String Nat) (fmtAny : Nat → Except String String) (bound fuel : Nat)
+    (i : Nat) (w : SW) : SW × Option String :=
+  let p := spropAt props i
+  if ops.find p.tagStr == "" then (w, none) else
+  match elLoop ops (quoteCb splitN cfg lenOf parse fmtAny i) "unresolved" bound fuel 0 p.tagStr w with
+  | none => (w, some "out of fuel")
+  | some (.error e, w') => (w', some e)
+  | some (.ok s, w') => (w' ++ [.setTagVal i s], none)
+
 end Ioc.Sem
